@@ -7,7 +7,8 @@
 (* than q (RFC 1982), else AXFR-style with 0..MaxRecs records and incremental   *)
 (* with 1 or 2 difference sequences holding <= MaxRecs records in all; every    *)
 (* composition of the stream into envelopes (optionally one envelope without    *)
-(* records in the middle); with and without TSIG; at most one fault; optionally *)
+(* records in the middle); with and without TSIG; at most one fault (with TSIG  *)
+(* also the MAC field emptied / truncated / extended); optionally               *)
 (* one more envelope after the end of the transfer.                             *)
 EXTENDS Xfr, GenBase
 
@@ -56,10 +57,15 @@ Transfers == UNION { { [mode |-> "axfr", q |-> c[1], R |-> R] : R \in AxfrStream
 WithEmpty(c) == { SubSeq(c, 1, j) \o <<0>> \o SubSeq(c, j + 1, Len(c)) : j \in 1..(Len(c) - 1) }
 Partitions(n) == LET cs == Compositions(n) IN IF Empties THEN cs \cup UNION { WithEmpty(c) : c \in cs } ELSE cs
 
+\* the MAC field of envelope p replaced by: nothing; its first 1 / 9 / 10 octets; its first half; all but the last
+\* octet; itself plus one octet (HMAC-SHA256: 32 octets, so max(10, half) = 16)
+MacKinds   == {"macempty", "mac1", "mac9", "mac10", "machalf", "macminus1", "macext"}
+AmbigKinds == {"machalf", "macminus1"}             \* valid truncations (RFC 8945 5.2.2.1): sig[4] = 2
+
 FaultsFor(k, tsig) ==
   { [kind |-> "none", pos |-> 0], [kind |-> "nosoa", pos |-> 1] }
     \cup { [kind |-> f, pos |-> p] : f \in {"rcode", "id", "close", "cut"}, p \in 1..k }
-    \cup (IF tsig THEN { [kind |-> f, pos |-> p] : f \in {"alter", "unsign", "wrongkey", "drop", "dup"}, p \in 1..k }
+    \cup (IF tsig THEN { [kind |-> f, pos |-> p] : f \in {"alter", "unsign", "wrongkey", "drop", "dup"} \cup MacKinds, p \in 1..k }
                        \cup { [kind |-> "swap", pos |-> p] : p \in 1..(k - 1) }
           ELSE {})
 
@@ -85,6 +91,7 @@ Network(b) ==
       p  == f.pos
   IN CASE f.kind = "alter"  -> [e2 EXCEPT ![p].recs = Append(@, Rec(88)), ![p].sig = [@ EXCEPT ![4] = 0]]
        [] f.kind = "unsign" -> [e2 EXCEPT ![p].sig = NoSig]
+       [] f.kind \in MacKinds -> [e2 EXCEPT ![p].sig = [@ EXCEPT ![4] = IF f.kind \in AmbigKinds THEN 2 ELSE 0]]
        [] f.kind = "drop"   -> SubSeq(e2, 1, p - 1) \o SubSeq(e2, p + 1, Len(e2))
        [] f.kind = "dup"    -> SubSeq(e2, 1, p) \o SubSeq(e2, p, Len(e2))
        [] f.kind = "swap"   -> SubSeq(e2, 1, p - 1) \o <<e2[p + 1], e2[p]>> \o SubSeq(e2, p + 2, Len(e2))
@@ -136,7 +143,7 @@ NoFaultNoError ==
 \* a fault => never "complete and error-free"; everything before the fault was delivered, nothing after
 FaultIsReported ==
   (Finished /\ ~Clean /\ ~Harmless) =>
-     /\ r.status = "error"
+     /\ r.status = IF cfgv.fault.kind \in AmbigKinds THEN "ambig" ELSE "error"
      /\ LET f == cfgv.fault
             honest == Chunks(cfgv.R, cfgv.lens)
             before == IF f.kind = "dup" THEN f.pos ELSE f.pos - 1 IN
@@ -145,6 +152,7 @@ FaultIsReported ==
 \* the step machine and the functional run agree
 RunAgrees == Finished => LET o == Observe(cfgv.mode, cfgv.q, cfgv.tsig, KeyGood, envs) IN
                          /\ o.delivered = r.delivered /\ o.err = (r.status = "error") /\ o.used = r.used
+                         /\ o.ambig = (r.status = "ambig")
 
 \* RFC 1982
 ASSUME /\ SerialGT(<<0, 5>>, <<65535, 65535>>) /\ ~SerialGT(<<65535, 65535>>, <<0, 5>>)
@@ -157,5 +165,5 @@ ASSUME /\ SerialGT(<<0, 5>>, <<65535, 65535>>) /\ ~SerialGT(<<65535, 65535>>, <<
 Out == (EmitBehaviours /\ Finished) =>
   Emit([kind |-> "xfr", mode |-> cfgv.mode, q |-> cfgv.q, R |-> cfgv.R, lens |-> cfgv.lens, tsig |-> cfgv.tsig,
         fault |-> cfgv.fault, tail |-> cfgv.tail,
-        delivered |-> r.delivered, err |-> r.status = "error", used |-> r.used])
+        delivered |-> r.delivered, err |-> r.status = "error", ambig |-> r.status = "ambig", used |-> r.used])
 =============================================================================
